@@ -14,6 +14,9 @@ FAMILIES = {
     "builtin": {"dists": ["normal", "uniform", "exponential", "flip", "categorical", "mvn"]},
     "probe": {"dists": ["p_normal", "p_uniform", "p_flip", "p_cat"]},
     "mixed": {},
+    # a distribution / Vmap / Scan / Cond used directly, without an enclosing @gen function
+    "bare": {"bare": True},
+    "bare-discrete": {"bare": True, "dists": ["p_flip", "p_cat", "p_flip"], "sizes": [2, 2, 3], "max_stmts": 3},
     "discrete": {
         "dists": ["p_flip", "p_cat", "p_flip"],
         "max_stmts": 3,
@@ -31,7 +34,10 @@ def make_case_program(gseed, family, tier, extra_cfg=None):
     if extra_cfg:
         cfg.update(extra_cfg)
     g = spec.Generator(rng, cfg)
-    prog = g.program()
+    if cfg.get("bare"):
+        prog = spec.bare_program(g)
+    else:
+        prog = g.program()
     return g, prog
 
 
@@ -192,6 +198,8 @@ def finite(x):
 
 
 def fnum(x):
+    if isinstance(x, (tuple, list)):
+        return [fnum(v) for v in x]
     a = np.asarray(x, dtype=np.float64)
     return a.tolist()
 
